@@ -417,9 +417,14 @@ def tasks(engine):
         label = MOD + 'FUNCTIONS[%r]' % name
         if st.kind == 'func':
             fi = src.funcs[st.name]
-            t = Task(fi.key, 'builtin', fi, builtin_setup(engine, name, st, fi), F.ALL_FAMILIES,
-                     EntrySpec(engine, name), label=label + ' = ' + fi.qual)
-            out.append(t)
+
+            def make(fi=fi, name=name, st=st, label=label):
+                return Task(fi.key, 'builtin', fi, builtin_setup(engine, name, st, fi), F.ALL_FAMILIES,
+                            EntrySpec(engine, name), label=label + ' = ' + fi.qual)
+            if name == '__setitem_with_op__' and 'op' in fi.params()[0]:
+                out.extend(split_cases(make, label, ['+=', '-=', '*=', '/='], lambda ex, ctx: ctx['env'].vars['op']))
+            else:
+                out.append(make())
         else:
             arities = RAW_ARITIES.get(st.name, [1, 2])
             for ar in arities:
